@@ -21,6 +21,10 @@ def walks(run, rng, n, depth, maxrej, nenc=5, nvar=3, seed_off=0, content_enc='T
 def conc(beh, rng, encs=None, rich=True, vary=False):
     """vary: ignore the behaviour's variant index and draw one per call (used when
     the behaviours were enumerated with NVar = 0 to keep the enumeration small)."""
+    if encs is None:
+        # the behaviour's encoding indices 1..NEnc stand for a fresh selection of codec names (all spellings of the
+        # pool take part, not only the first few)
+        encs = rng.sample(pools.ENCODINGS[1:], 5)
     return [pools.conc_call(c['op'], c['e'], (rng.choice([0, 1, 2, 3]) if vary else (c['v'] if rich else 0)),
                             rng, encs=encs) for c in beh]
 
